@@ -108,3 +108,125 @@ inline std::vector<uint32_t> gen_partition(Tape & t, int64_t total, uint32_t spd
     }
     return parts;
 }
+
+// ---------------------------------------------------------------------------------------------
+// General writer program (C05, C14, C17, C19, C03): several signals/types, contiguous FSR streams
+// cut into writes, omit toggles, annotations, UTC, user data, flushes, interleaved.
+struct GenOpts {
+    int max_signals = 3;
+    int64_t sample_budget = 20000;
+    bool allow_gaps = false;
+    bool allow_big = false;        // payloads > 1 MiB
+    bool allow_vsr = true;
+    bool small_defs_only = true;   // keep several summary levels reachable with few samples
+};
+
+inline Program gen_general(Tape & t, int size, const GenOpts & go) {
+    Program p;
+    p.ops.push_back(gen_source(t, 1));
+    if (t.chance(1, 4)) p.ops.push_back(gen_source(t, (int) t.range(2, 255)));
+    int nsig = (int) t.range(1, go.max_signals);
+    struct Plan { int id; const DType * dt; StoredDef sd; bool fsr; int64_t first, written, total; Pattern pat; int64_t anno_ts; int64_t utc_id; int64_t utc; bool defined; Op def; };
+    std::vector<Plan> plans;
+    for (int s = 0; s < nsig; ++s) {
+        Plan pl;
+        pl.id = s == 0 ? (int) t.pick(std::vector<int>{1, 2, 255, 9}) : 10 + s * 3;
+        pl.dt = &DTYPES[t.below(N_DTYPES)];
+        pl.fsr = !(go.allow_vsr && s > 0 && t.chance(1, 8));
+        int shape = go.small_defs_only ? (int) t.weighted({6, 3, 0, 0}) : (int) t.weighted({5, 3, 1, 2});
+        pl.def = gen_signal(t, pl.id, 1, *pl.dt, shape);
+        if (!pl.fsr) { pl.def.stype = 1; pl.def.rate = 0; }
+        pl.sd = predict_stored(pl.def, *pl.dt);
+        pl.first = gen_first_id(t);
+        if (pl.first > (1LL << 58)) pl.first = 1LL << 45;
+        if (pl.first < -(1LL << 58)) pl.first = -(1LL << 45);
+        pl.written = 0;
+        int64_t l1 = (int64_t) pl.sd.eps * pl.sd.sdf;
+        switch (t.weighted({1, 2, 3, 3, 2})) {
+            case 0: pl.total = 0; break;                                              // empty signal
+            case 1: pl.total = t.range(1, pl.sd.spd * 2); break;
+            case 2: pl.total = t.range(1, l1 * 2); break;
+            case 3: pl.total = l1 * t.range(1, 12) + t.range(-pl.sd.spd, pl.sd.spd); break;   // level 2 and 3 on disk
+            default: pl.total = l1 * pl.sd.sumdf * t.range(1, 3) + t.range(-pl.sd.spd, pl.sd.spd); break;
+        }
+        if (pl.total < 0) pl.total = 0;
+        int64_t cap = go.sample_budget / nsig * (size + 20) / 120;
+        if (pl.dt->bits >= 32) cap /= 2;
+        if (pl.total > cap) pl.total = cap;
+        if (!pl.fsr) pl.total = 0;
+        pl.pat = gen_pattern(t, *pl.dt, {"random", "ramp", "blocks", "blocks", "const", "small", "alt"}, pl.sd.spd);
+        pl.anno_ts = pl.first; pl.utc_id = pl.first - t.range(0, 100); pl.utc = t.range(0, 1LL << 40);
+        pl.defined = false;
+        plans.push_back(pl);
+    }
+    // definitions may come at any time: define the first now, others lazily
+    auto define = [&](Plan & pl) { if (!pl.defined) { p.ops.push_back(pl.def); pl.defined = true; } };
+    define(plans[0]);
+    int big_left = go.allow_big ? 1 : 0;
+    int guard = 0;
+    while (++guard < 400) {
+        bool any_left = false;
+        for (auto & pl : plans) if (pl.written < pl.total) any_left = true;
+        size_t kind = t.weighted({(uint32_t) (any_left ? 10 : 0), 2, 2, 1, 1, 1, 1});
+        if (!any_left && t.chance(2, 3)) break;
+        Plan & pl = plans[t.below((uint32_t) plans.size())];
+        define(pl);
+        switch (kind) {
+            case 0: {
+                if (pl.written >= pl.total) break;
+                int64_t left = pl.total - pl.written;
+                int64_t n;
+                switch (t.weighted({2, 2, 3, 3})) {
+                    case 0: n = t.range(1, 9); break;
+                    case 1: n = (int64_t) pl.sd.spd + t.range(-1, 1); break;
+                    case 2: n = t.range(1, (int64_t) pl.sd.spd * 4); break;
+                    default: n = t.range(1, left); break;
+                }
+                if (n > left) n = left;
+                if (n < 1) n = 1;
+                Op o; o.op = "fsr"; o.sig = pl.id; o.sample_id = pl.first + pl.written; o.n = (uint32_t) n; o.pat = pl.pat; o.poff = pl.written; o.junk = t.chance(1, 4);
+                if (go.allow_gaps && pl.written > 0 && t.chance(1, 12)) { int64_t g = t.range(1, pl.sd.spd + 3); o.sample_id += g; pl.first += 0; pl.written += g; pl.total += g; o.poff = pl.written; }
+                p.ops.push_back(o);
+                pl.written += n;
+                break;
+            }
+            case 1: {   // annotation (non-decreasing per signal); also for the global signal 0
+                Op a; a.op = "anno";
+                bool global = t.chance(1, 5);
+                a.sig = global ? 0 : pl.id;
+                pl.anno_ts += t.pick(std::vector<int64_t>{0, 0, 1, 5, 100});
+                a.ts = pl.anno_ts;
+                if (global) a.ts = (int64_t) guard * 1000;   // strictly increasing for signal 0
+                a.y = t.chance(1, 5) ? NAN : (float) t.range(-50, 50);
+                a.atype = (int) t.range(0, 3); a.group = (int) t.range(0, 3); a.stor = (int) t.range(1, 3);
+                bool text = a.stor != 1;
+                if (big_left && t.chance(1, 10)) { a.data.gen = true; a.data.seed = (uint64_t) t.raw() << 1; a.data.n = (uint32_t) ((1 << 20) + t.range(-30, 3000)); a.data.text = text; --big_left; }
+                else { a.data.gen = true; a.data.seed = (uint64_t) t.raw() << 1; a.data.n = (uint32_t) t.range(0, 40); a.data.text = text; }
+                p.ops.push_back(a);
+                break;
+            }
+            case 2: {   // UTC (FSR only)
+                if (!pl.fsr) break;
+                Op u; u.op = "utc"; u.sig = pl.id;
+                pl.utc_id += t.range(1, 500); pl.utc += t.range(1, 1LL << 32);
+                u.sample_id = pl.utc_id; u.utc = pl.utc;
+                p.ops.push_back(u);
+                break;
+            }
+            case 3: {   // user data
+                Op u; u.op = "user"; u.meta = (int) t.range(0, 0xfff); u.stor = (int) t.range(1, 3);
+                bool text = u.stor != 1;
+                u.data.gen = true; u.data.seed = (uint64_t) t.raw() << 1; u.data.text = text;
+                if (big_left && t.chance(1, 6)) { u.data.n = (uint32_t) ((1 << 20) + t.range(-30, 100000)); --big_left; }
+                else u.data.n = (uint32_t) t.range(text ? 0 : 0, 100);
+                p.ops.push_back(u);
+                break;
+            }
+            case 4: { if (!pl.fsr) break; Op o; o.op = "omit"; o.sig = pl.id; o.enable = (int) t.below(2); p.ops.push_back(o); break; }
+            case 5: { Op o; o.op = "flush"; p.ops.push_back(o); break; }
+            default: { for (auto & q : plans) define(q); break; }
+        }
+    }
+    for (auto & q : plans) if (!q.defined && t.coin()) define(q);
+    return p;
+}
